@@ -23,6 +23,11 @@ use write_fonts::tables::variations::{
     VariationRegion,
 };
 
+#[path = "c11/coords.rs"]
+mod coords;
+#[path = "c11/float.rs"]
+mod float;
+
 type Axis = (i16, i16, i16);
 type Region = Vec<Axis>;
 
@@ -939,6 +944,7 @@ fn run_raw(cfg: &Config, s: &mut Session, rng: &mut Rng) {
                 continue;
             }
             s.case("compute_delta(raw)", format!("ivs.delta {prefix} {outer} {inner} {}", lreq(&coords)), real);
+            float::float_delta_case(s, rng, &bytes, &store, &prefix, outer, inner, &coords);
             // the row iterator itself
             if let Some(Some(sub)) = store.subs.get(outer as usize) {
                 let row = catch(|| {
@@ -1648,4 +1654,10 @@ fn run(cfg: &Config, s: &mut Session) {
     run_avar(cfg, s, &mut rng);
     run_user_to_normalized(cfg, s, &mut rng);
     run_metrics(cfg, s, &mut rng);
+    // second generation (sub-modules in c11/): own generators so that the streams above stay unchanged
+    let mut rng2 = Rng::new(cfg.seed ^ 0xC11_0002);
+    coords::run_settings(cfg, s, &mut rng2);
+    float::run_ops(cfg, s, &mut rng2);
+    float::run_scalar_f32(cfg, s, &mut rng2);
+    float::run_float_delta(cfg, s, &mut rng2);
 }
